@@ -4,7 +4,7 @@ From BEI Require Export Check.Merge.
 From BEI Require Import Spec.Law.
 Open Scope Z_scope.
 
-Definition judge_action (c e : Z) (b : abind) (o : out) : list (Z * bool) :=
+Definition judge_action (settled : bool) (c e : Z) (b : abind) (o : out) : list (Z * bool) :=
   let a := ab_id b in
   let d := aid_dim a in
   let lg := x_log o in
@@ -14,6 +14,11 @@ Definition judge_action (c e : Z) (b : abind) (o : out) : list (Z * bool) :=
   | None => []
   | Some s =>
       (3, dim_eqb (vdim (sn_value s)) d) ::
+      (* in this profile every instance exists before an idle first frame, so from the second frame on no binding
+         is suppressed: each raw value must pass through its input's modifiers (all of them run, C12) *)
+      (5, implb settled (forallb (fun ib => match ib_mods ib with
+                                             | (id, _) :: _ => match find_mod id lg with Some _ => true | None => false end
+                                             | [] => true end) (ab_inputs b))) ::
       match first_mod_in (ab_mods b) lg, last_mod_out (ab_mods b) lg, results_of (ab_conds b) lg with
       | Some merged, Some vfinal, Some ars =>
           (2, veqb (sn_value s) (convert d vfinal)) ::
@@ -25,20 +30,20 @@ Definition judge_action (c e : Z) (b : abind) (o : out) : list (Z * bool) :=
       end
   end.
 
-Fixpoint judge_steps (sc : scenario) (before : out) (steps : list step) (outs : list out) : list (Z * bool) :=
+Fixpoint judge_steps (sc : scenario) (nframes : nat) (before : out) (steps : list step) (outs : list out) : list (Z * bool) :=
   match steps, outs with
   | SFrame f :: steps', o :: outs' =>
       (8, negb (x_panicked o)) ::
       flat_map (fun x => let '(c, e, spec) := x in
-                         if got_of c e before then flat_map (fun b => judge_action c e b o) (merged_actions spec) else [])
-               (s_cfg sc) ++ judge_steps sc o steps' outs'
-  | SOp _ :: steps', o :: outs' => (8, negb (x_panicked o)) :: judge_steps sc o steps' outs'
+                         if got_of c e before then flat_map (fun b => judge_action (Nat.leb 1 nframes) c e b o) (merged_actions spec) else [])
+               (s_cfg sc) ++ judge_steps sc (S nframes) o steps' outs'
+  | SOp _ :: steps', o :: outs' => (8, negb (x_panicked o)) :: judge_steps sc O o steps' outs'
   | [], [] => []
   | _, _ => [(9, false)]
   end.
 Definition ok (p : scenario * trace_t) : Z :=
   match p with
-  | (sc, trace outs) => first_fail (judge_steps sc (mkOut [] [] [] [] [] [] [] true true false) (s_steps sc) outs)
+  | (sc, trace outs) => first_fail (judge_steps sc O (mkOut [] [] [] [] [] [] [] true true false) (s_steps sc) outs)
   | (_, panic) => 10
   end.
 Definition bad_agree := bad agree_full.
